@@ -551,6 +551,35 @@ fn inside_level(a: Point, b: Point, v: Point, o: Orientation, lt: f64) -> bool {
     (a.y - b.y).abs() <= lt && (v.y - a.y).abs() <= lt
 }
 
+/// `collinear-curve`: the flattened curve lies on one straight line (every flattening point within
+/// the rounding envelope `lt` of the line through its two extreme points): a degenerate curve,
+/// straight or retracing itself. Its chords are collinear with each other — coincident where the
+/// curve backtracks (several pieces of the SAME source edge, identical `from_id → to_id`, different
+/// parameters) — and an ulp off the line, so that crossings of neighbouring chords are
+/// ill-conditioned. Determined by the input curve alone.
+fn collinear_curve(flat: &[(Point, Point, f32, f32)], lt: f64) -> bool {
+    let pts: Vec<Point> = flat.iter().flat_map(|(a, b, _, _)| [*a, *b]).collect();
+    if pts.len() < 4 {
+        // a single chord: the curve is flattened like a line segment
+        return false;
+    }
+    let (mut p, mut q, mut best) = (pts[0], pts[0], -1.0f64);
+    for a in &pts {
+        for b in &pts {
+            let d = dist64((a.x as f64, a.y as f64), *b);
+            if d > best {
+                best = d;
+                p = *a;
+                q = *b;
+            }
+        }
+    }
+    if !(best > 0.0) || pts.iter().any(|r| project(p, q, *r).1 > lt) {
+        return false;
+    }
+    true
+}
+
 /// another output vertex within `r` of vertex `vi`
 fn has_twin(verts: &[VRec], vi: usize, r: f64) -> bool {
     let v = verts[vi].pos;
@@ -702,10 +731,14 @@ fn check_run(spec: &Spec, at: &AttrSpec, cfg: &Cfg, run: &Run, orc: &mut Oracle)
 
 fn check_run_inner(spec: &Spec, at: &AttrSpec, cfg: &Cfg, run: &Run, orc: &mut Fails) {
     let scale = spec.scale();
-    // rounding envelope: the tessellator snaps an intersection to an edge end within 3.2e-5
-    // (`is_near`); off the lattice a vertex within the fill tolerance of an edge is treated as
-    // lying on it, so the tolerance is added there
-    let env = 4e-5 + 64.0 * EPS32 * scale + if spec.lattice() && cfg.tol <= 0.0101 { 0.0 } else { cfg.tol as f64 };
+    // position envelope = rounding + fill tolerance.  Rounding: the tessellator snaps an
+    // intersection to an edge end within 3.2e-5 (`is_near`), plus 64 ulp of the magnitude.
+    // Tolerance (precondition of the oracle, stated in conf/C07.json): the fill tessellator treats
+    // a vertex within its tolerance of an edge as lying on the edge (documented use of
+    // `FillOptions::tolerance`), so a source may place a vertex up to the tolerance away from the
+    // exact `lerp`; the generators keep the tolerance at 0.0125 % – 0.125 % of the path's extent,
+    // far below the error of any wrong parameter seen so far.
+    let env = 4e-5 + 64.0 * EPS32 * scale + cfg.tol as f64;
     let lvl = 4e-5 + 64.0 * EPS32 * scale;
     let pts = spec.endpoints();
     if std::env::var("C07_DUMP").is_ok() {
@@ -786,9 +819,17 @@ fn check_run_inner(spec: &Spec, at: &AttrSpec, cfg: &Cfg, run: &Run, orc: &mut F
                                 let q = lerp64(g.a, *b, tt);
                                 let d = dist64(q, v.pos);
                                 if !(d <= env) || !range_ok {
-                                    let mut class = classify(&run.verts, vi, g.a, *b, from, to, tt, env + cfg.tol as f64 + 1e-3, 0.0, 1.0);
+                                    // (the narrow rounding class first: the split defect is repaired,
+                                    // its predicate only names regressions)
+                                    let lc = level_class(g.a, *b, v.pos, &run.verts, cfg.orientation, lvl);
+                                    // narrow: the vertex IS the point at parameter t of the edge's carrier line, but t is
+                                    // outside [0,1] (an extrapolated, flipped cut-off part)
+                                    let mut class = if lc == Some("level-edge-rounding") && !range_ok && d <= env { "level-edge-rounding" } else { "generic" };
                                     if class == "generic" {
-                                        class = level_class(g.a, *b, v.pos, &run.verts, cfg.orientation, lvl).unwrap_or("generic");
+                                        class = classify(&run.verts, vi, g.a, *b, from, to, tt, env + cfg.tol as f64 + 1e-3, 0.0, 1.0);
+                                    }
+                                    if class == "generic" {
+                                        class = lc.unwrap_or("generic");
                                     }
                                     orc.check(false, clause("fill.vertex/edge-source-position"), class, || {
                                         format!("vertex {} at {:?}: edge {:?}->{:?} t = {} is ({:.6},{:.6}), {:.3e} away (allowed {:.1e})", vi, v.pos, g.a, b, t, q.0, q.1, d, env)
@@ -801,6 +842,9 @@ fn check_run_inner(spec: &Spec, at: &AttrSpec, cfg: &Cfg, run: &Run, orc: &mut F
                                 // the tolerance of the curve)
                                 let flat = flatten_seg(g.a, curve, false, cfg.tol, cfg.orientation);
                                 let hit = at_param(&flat, tt);
+                                if std::env::var("C07_DUMP").is_ok() {
+                                    eprintln!("  flat {:?} hit {:?}", flat, hit);
+                                }
                                 let mut d = hit.map_or(f64::INFINITY, |h| dist64(h.3, v.pos));
                                 let reversed = is_after(sweep(g.a, cfg.orientation), sweep(curve.to(), cfg.orientation));
                                 let rflat = flatten_seg(g.a, curve, true, cfg.tol, cfg.orientation);
@@ -820,7 +864,9 @@ fn check_run_inner(spec: &Spec, at: &AttrSpec, cfg: &Cfg, run: &Run, orc: &mut F
                                     if reversed {
                                         cands.push(at_param(&rflat, 1.0 - tt).map(|h| (h.1, h.0, 1.0 - h.2, h.3, 1.0 - h.5, 1.0 - h.4)));
                                     }
-                                    let class = if cands.iter().flatten().any(|(pa, pb, u, _, t0, t1)| {
+                                    let class = if collinear_curve(&flat, lvl) {
+                                        "collinear-curve"
+                                    } else if cands.iter().flatten().any(|(pa, pb, u, _, t0, t1)| {
                                         classify(&run.verts, vi, *pa, *pb, from, to, *u, env + cfg.tol as f64 + 1e-3, *t0, *t1) != "generic"
                                     }) {
                                         "split-at-vertex-then-cut"
@@ -1233,9 +1279,34 @@ fn corpus(ctx: &mut Ctx) {
     }
 }
 
+/// Fixed witness of the open finding `collinear-curve`: a cubic whose control points lie on the
+/// level line y = 2 and which retraces itself (x: 7 → 4.81 → 5.52 → 8).
+fn corpus_collinear(ctx: &mut Ctx) {
+    ctx.case("fill", |_rng| {
+        let spec = Spec {
+            subs: vec![Sub { start: point(7.0, 2.0), segs: vec![Seg::Cubic(point(3.0, 2.0), point(5.0, 2.0), point(8.0, 2.0)), Seg::Line(point(5.0, 6.0))], closed: true }],
+            kind: "corpus-collinear-curve".to_string(),
+        };
+        let at = AttrSpec { n: 0, values: spec.endpoints().iter().map(|_| vec![]).collect(), affine: None };
+        let cfg = Cfg { rule: FillRule::EvenOdd, orientation: Orientation::Vertical, tol: 0.005, entry: 2 };
+        let mut args = Out::new();
+        args.t(&spec.kind).u(0).t(&cfg.name().replace(' ', "-")).f(cfg.tol);
+        let tag = format!("fill {} attrs=0 {}", spec.kind, cfg.name());
+        (args, tag, move || {
+            let mut o = Out::new();
+            let mut orc = Oracle::new();
+            let run = run_fill(&spec, &at, &cfg);
+            o.t("verts").u(run.verts.len() as u64);
+            check_run(&spec, &at, &cfg, &run, &mut orc);
+            CaseOut { imp: o, orcl: orc.verdict }
+        })
+    });
+}
+
 fn main() {
     let mut ctx = Ctx::from_args("C07");
     corpus(&mut ctx);
+    corpus_collinear(&mut ctx);
     let n_fill = ctx.n(3000, 100_000);
     let n_vertex = ctx.n(600, 20_000);
     let n_queue = ctx.n(800, 30_000);
